@@ -390,6 +390,12 @@ func (c *Ctx) c02OnOff() error {
 		"func f() int { m := map[float64]int{}; m[3000000000] = 7; k := float64(3000000000); return m[k] }; y := f(); y",
 		"func f() float64 { z := 0.0; z = -z; w := z - 0; return 1 / w }; y := f(); y",
 		"func f() float64 { z := 0.0; z = -z; z -= 0; v := z + 0; return 1/z + 1/v }; y := f(); y",
+		// fused arithmetic on two locals at the edges: float division by zero is not an error (Inf, NaN), integer division is
+		"func f() float64 { x := 1.5; z := 0.0; return x / z }; y := f(); y", "func f() float64 { x := -1.5; z := 0.0; return x / z }; y := f(); y",
+		"func f() bool { x := 0.0; z := 0.0; q := x / z; return q != q }; y := f(); y", "func f() float64 { x := 1.5; z := 0.0; z = -z; return x / z }; y := f(); y",
+		"func f(x, z float64) float64 { return x / z }; y := f(2, 0); y", "func f(x, z int) int { return x / z }; y := f(2, 0); y", "func f(x, z uint8) uint8 { return x / z }; y := f(2, 0); y",
+		"func f(x, z float64) float64 { return x * z }; y := f(1e308, 10); y", "func f(x, z float64) float64 { return x - z }; y := f(1e308, -1e308); y", "func f(a, b string) string { return b + a }; y := f(\"a\", \"b\"); y",
+		"func f(sep string) string { r := \"a\"; r += sep; r += \"b\"; return r }; y := f(\"-\"); y", "func f(x int) int { return x - 1 - 2 }; y := f(10); y", "func f(x int) int { return x + 1 - 2 }; y := f(10); y", "func f(a, b int) int { return a*b - 3 - 4 }; y := f(5, 4); y",
 		// empty blocks: jumps over nothing (conditional ones still pop their condition)
 		"func f(x int) int { if x > 10 { }; return x * 2 }; y := f(21); y", "x := 3; if x > 1 { }; x", "func f(x int) int { n := 0; for i := 0; i < x; i++ { if i%2 == 0 { } else { }; n += i }; return n }; y := f(5); y",
 		"func f(x int) int { switch { case x > 1: }; switch x { case 7: default: }; for x > 100 { }; return x + 1 }; y := f(7); y",
